@@ -74,9 +74,10 @@ theorem C04_snapshot (ops : List Op) (size : Nat) (files : List OutFile)
 /-! ### the statement checker on model traces -/
 
 /-- **C04_holdsOn (partial).**  The run-time oracle accepts every trace of the model, for all
-    cases whose compactions satisfy `GoodAt`.  Missing for the full theorem: range deletes
-    (`NoDel`), keys with more than 20 blocks (false there: `C04_sort_stable_fails`), inputs
-    with blocks larger than `size` (false there: `C04_full_fails`), termination of the model. -/
+    cases — any files, range deletes, cache writes, snapshots, full and fast compactions — whose
+    compactions satisfy `GoodAt`.  Missing for the full theorem: keys with more than 20 blocks
+    (false there: `C04_content_fails_gt20`), inputs with blocks larger than `size` (false there:
+    `C04_full_fails`), termination of the model (`GoodAt` asks that the model run returns). -/
 theorem C04_holdsOn_partial (ops : List Op) (h : CaseGood init ops) : holdsOn (run init ops) = true := by
   unfold holdsOn
   have : judgeAll [] (run init ops) = none := judgeAll_run ops init trivial h
@@ -95,10 +96,7 @@ example : CaseGood init
   show (2 = 0 ∨ 2 > 100000) ∨ GoodAt (step (step (step init _).1 _).1 _).1.reverse false 2
   rw [hs, List.reverse_reverse]
   right
-  refine ⟨?_, ?_, ?_, ?_⟩
-  · intro op hop f keys lo hi
-    simp [acc3] at hop
-    rcases hop with rfl | rfl | rfl <;> simp
+  refine ⟨?_, ?_, ?_⟩
   · intro k
     have hf : fileIds acc3 = [0, 1] := by decide
     simp only [blocksOfKey, hf, List.flatMap_cons, List.flatMap_nil, List.append_nil, List.length_append]
